@@ -21,7 +21,7 @@ Proof.
 Qed.
 
 (** *** keywords *)
-Lemma tfs_today : forall w now toks, time_from_string w now toks (b "today") = inr (to_local now (w_tz w)).
+Lemma tfs_today : forall w now toks, time_from_string w now toks (b "today") = inr now.
 Proof. reflexivity. Qed.
 Lemma tfs_yesterday : forall w now toks, time_from_string w now toks (b "yesterday") = inr (add_days now (-1)).
 Proof. reflexivity. Qed.
@@ -190,7 +190,7 @@ Qed.
 
 (** *** keywords_spec *)
 Theorem keywords_spec : forall w now toks,
-  (time_from_string w now toks (b "today") = inr (to_local now (w_tz w)) /\ inst (to_local now (w_tz w)) = inst now) /\
+  time_from_string w now toks (b "today") = inr now /\
   (exists t, time_from_string w now toks (b "yesterday") = inr t /\ inst t = inst now - 1 * ns_per_day) /\
   (exists t, time_from_string w now toks (b "last7") = inr t /\ inst t = inst now - 7 * ns_per_day) /\
   (exists t, time_from_string w now toks (b "last30") = inr t /\ inst t = inst now - 30 * ns_per_day) /\
